@@ -166,8 +166,6 @@ def judge (tsTok : String) (ts : Syntax) (dict : Tag → Option VR) (tree : Elem
   | .bytes raw inf =>
     -- the data set bytes the reader of this syntax sees
     let seen : Option Bytes := if deflatedTs then inf else some raw
-    let cfg : Valid.Cfg := { explicit := ts.explicit, bigEndian := ts.bigEndian,
-                             isSeq := fun g e => (elemsSeqTags tree).contains ⟨g, e⟩ }
     let modelBytesMatch := match model with
       | .ok mb => seen == some mb || (deflatedTs && raw == mb)
       | .error _ => false
@@ -175,8 +173,6 @@ def judge (tsTok : String) (ts : Syntax) (dict : Tag → Option VR) (tree : Elem
     -- classifiers of recorded findings
     let notDeflated := deflatedTs && call != "default" && (match model with | .ok mb => raw == mb | _ => false)
         && !(raw.isEmpty)
-    let staleItem := decide (strat = .setUndefined) && elemsHasPix tree && elemsHasExplicit tree && modelBytesMatch
-        && !(Valid.validPS35 cfg (seen.getD raw))
     let rtResult : Except String Unit :=
       match r with
       | .tree t' =>
@@ -189,7 +185,6 @@ def judge (tsTok : String) (ts : Syntax) (dict : Tag → Option VR) (tree : Elem
       | .panic => fail "read-panic" ""
       | .err =>
         if notDeflated then fail "deflated-options-api-not-deflated" "the options API wrote a plain Explicit VR LE stream; reading it as Deflated fails"
-        else if staleItem then fail "stale-item-length-after-pixel-sequence" ""
         else fail "read-failed" ""
     match rtResult with
     | .error m => .error m
@@ -224,7 +219,7 @@ def handle (line : String) : String :=
         -- prefer an unclassified / non-recorded failure, then PROP-FAIL over MODEL-DIFF
         let all := m :: rest
         (all.find? fun x => x.startsWith "PROP-FAIL" && !(x.splitOn "class=deflated-options-api-not-deflated").length > 1
-            && !(x.splitOn "class=stale-item-length").length > 1 && !(x.splitOn "class=empty-fragment-dropped").length > 1)
+            && !(x.splitOn "class=empty-fragment-dropped").length > 1)
           |>.getD ((all.find? fun x => x.startsWith "PROP-FAIL").getD m)
       | [] =>
         let prims := elemsPrims tree
